@@ -1,0 +1,16 @@
+//go:build verif
+// +build verif
+
+package capacity
+
+// Verification hook (see /verif): named gate points in the plotter loop at which a
+// controlled scheduler may park the plotter goroutine. Compiled only with the
+// "verif" build tag.
+
+var VerifGate func(sk *SpaceKeeper, name string)
+
+func verifGate(sk *SpaceKeeper, name string) {
+	if VerifGate != nil {
+		VerifGate(sk, name)
+	}
+}
